@@ -448,6 +448,11 @@ func ownedValue(e *Eng, fn *ssa.Function, v ssa.Value, seen map[ssa.Value]bool, 
 				}
 			}
 		}
+	case *ssa.IndexAddr:
+		// a struct held by value in a list made here
+		if localValueSlot(x) {
+			return ""
+		}
 	case *ssa.FieldAddr:
 		// a struct held by value in a field is part of the object that holds it
 		if ft := fieldTypeOf(x); ft != nil {
